@@ -6,7 +6,7 @@ from .. import core, addsweep
 from ..core import Shard, run, align_lines, res_replay
 from ..oracle import cal, dur
 
-CALS = ["ymd", "ymcw", "yd", "ywd", "bizda", "ldn", "mdn"]
+CALS = ["ymd", "ymcw", "yd", "ywd", "bizda", "ldn", "mdn", "jdn", "epoch"]
 N_LIST = list(range(1, 13)) + list(range(19, 24)) + list(range(60, 67)) + list(range(250, 263)) + [1305]
 WDN = ["Mon", "Tue", "Wed", "Thu", "Fri", "Sat", "Sun"]
 
@@ -17,6 +17,9 @@ def bd_pairs(K, ords, n, ctx):
         if K == "bizda" and not dur.is_bday(o):
             continue
         t = dur.nth_bday_after(o, n)
+        if K == "epoch" and max(o, t) > cal.ORD_MAX - 606:
+            ctx.skip("epoch-last606")       # finding F1 of C01: these go through the civil date
+            continue
         if not dur.in_range(t):
             ctx.skip("result-out-of-range")
             continue
@@ -29,7 +32,8 @@ def badd_task(task):
     bindir, K, n, prs = task
     sh = Shard()
     lines = [addsweep.ktext(K, o)[0] for o, _ in prs]
-    argv = [str(bindir / "dadd")] + addsweep.KARGS[K] + ["--", "%+db" % n]
+    # (-i %s would read a leading -N as the operand, so lead with a duration that cannot be a stamp)
+    argv = [str(bindir / "dadd")] + addsweep.KARGS[K] + ["--"] + (["+0s"] if K == "epoch" and n < 0 else []) + ["%+db" % n]
     r = run(argv, stdin=("\n".join(lines) + "\n").encode(), cpu=60, wall=300)
     sh.procs += 1
     outs, crash = align_lines(lines, r)
@@ -128,6 +132,25 @@ def bizmap_task(task):
                    dict(argv=argv, input=lines[k], expected=exp[k], observed=got), cls=c)
     if outs:
         sh.sample(dict(cmd=core.shq(argv), input=lines[0], output=outs[0]), cap=1)
+    # and back: the civil date (in four spellings) printed as business day of the month gives the index again
+    for rep in ("ymd", "ywd", "yd", "ymcw"):
+        if (len(lines) + len(rep)) % 4 != ("ymd", "ywd", "yd", "ymcw").index(rep) and rep != "ymd":
+            continue
+        src = [addsweep.ktext(rep, date.fromisoformat(e).toordinal())[0] for e in exp]
+        argv3 = [str(bindir / "dconv"), "-f", "%Y-%m-%db"]
+        r3 = run(argv3, stdin=("\n".join(src) + "\n").encode(), cpu=60, wall=300)
+        sh.procs += 1
+        sh.check_san(r3, "san", "bizmap:back:san")
+        outs3, _ = align_lines(src, r3)
+        for k, got in enumerate(outs3):
+            idx = int(lines[k][8:10])
+            c = ("bizmap-back", rep, "idx%d" % idx if idx > 19 or idx < 3 else "idx-mid", WDN[(date.fromisoformat(exp[k]).toordinal() - 1) % 7])
+            if got == lines[k]:
+                sh.ok("bizmap", c)
+            else:
+                sh.bad("bizmap", "bizmap:back:%s:err=%s" % (rep, addsweep.err_shape(got, ())),
+                       "dconv %s -f %%Y-%%m-%%db -> %r, it is the %d-th Mon-Fri day of its month: %s" % (src[k], got, idx, lines[k]),
+                       dict(argv=argv3, input=src[k], expected=lines[k], observed=got), cls=c)
     # the same dates through the other exits of the business-day representation: count-weekday form and its count,
     # business day of the year, day number
     ords = [date.fromisoformat(e).toordinal() for e in exp]
@@ -217,7 +240,7 @@ def main(tier, seed):
                 "found by stepping over date.weekday(); N in +-%s + random up to 200000; every weekday as start "
                 "incl. weekend starts; (2) ddiff A B -f %%db for B = A (+) n business days must print n (inversion), "
                 "and for arbitrary pairs the Mon-Fri count of the half-open interval (either end open accepted); "
-                "(3) every YYYY-MM-DDb (all months%s, all indices) through dconv -f %%F, -f '%%Y-%%m-%%c-%%w|%%c', -f %%jb and -f ldn. distinct_nontrivial = "
+                "(3) every YYYY-MM-DDb (all months%s, all indices) through dconv -f %%F, -f '%%Y-%%m-%%c-%%w|%%c', -f %%jb and -f ldn, and the civil date (ymd, ywd, yd, ymcw spelling) back through -f %%Y-%%m-%%db. distinct_nontrivial = "
                 "distinct (monitor, calendar, start weekday, n mod 5, sign, week-wrap)" %
                 (CALS, N_LIST, " of every third year" if quick else ""))
     ctx.assumptions = ["n = 0 is excluded by the statement",
